@@ -238,7 +238,7 @@ def run(chk):
 
     nsim = 30 if quick else 300
     simlen = 16 if quick else 24
-    tmo = 900 if quick else 2400
+    tmo = 1500 if quick else 3000
     t0 = time.time()
     ex = concurrent.futures.ThreadPoolExecutor(max_workers=6 if quick else 5)
     # generators first (the replay waits for them); the design-level jobs keep running during replay and folding
